@@ -598,6 +598,21 @@ fn sweeps(tier: Tier) -> Vec<Sweep> {
             cases,
         });
     }
+    // rows of different widths on the two sides (0 = empty row)
+    for (nm, base) in [("raw", &raw), ("dual", &dual)] {
+        let mut cases = vec![];
+        for wr in [0usize, 1, 2, 7, 8, 9, 16, 17, 25] {
+            for wl in [0usize, 1, 2, 7, 8, 9, 16, 17, 25] {
+                cases.push(format!("{wr},{wl}").into_bytes());
+            }
+        }
+        out.push(Sweep {
+            name: format!("extremes/bigram-widths-{nm}"),
+            kind: Kind::BigramCost,
+            base: (*base).clone(),
+            cases,
+        });
+    }
     // an empty unk.def / a category without an unk entry (K1)
     out.push(Sweep {
         name: "extremes/unk".into(),
@@ -642,6 +657,23 @@ fn check_case(sw: &Sweep, case: &[u8], kf: &[KnownFinding], sentences: &[String]
         let b = sw.base.bigram.clone().unwrap();
         let mut f = sw.base.clone();
         f.bigram = Some((if mask & 1 != 0 { vec![] } else { b.0 }, if mask & 2 != 0 { vec![] } else { b.1 }, if mask & 4 != 0 { vec![] } else { b.2 }));
+        f
+    } else if sw.name.starts_with("extremes/bigram-widths") {
+        let txt = String::from_utf8_lossy(case).to_string();
+        let (wr, wl) = txt.split_once(',').unwrap();
+        let (wr, wl): (usize, usize) = (wr.parse().unwrap(), wl.parse().unwrap());
+        let side = |w: usize, c: char| -> Vec<u8> {
+            let mut s = String::new();
+            for id in 1..=2 {
+                s.push_str(&format!("{id}\t"));
+                let cells: Vec<String> = (0..w).map(|p| if (id + p) % 5 == 0 { "*".to_string() } else { format!("{c}{}", (id * p) % 3) }).collect();
+                s.push_str(&cells.join(","));
+                s.push('\n');
+            }
+            s.into_bytes()
+        };
+        let mut f = sw.base.clone();
+        f.bigram = Some((side(wr, 'R'), side(wl, 'L'), b"R0/L0\t5\nR1/L1\t-3\nR2/L2\t9\n/L0\t7\n/L2\t70\nR1/\t2\nR2/\t20\n".to_vec()));
         f
     } else {
         sw.base.with(sw.kind, case.to_vec())
